@@ -86,9 +86,9 @@ def balance(job, kind, mode, tier):
             fb = [dict(f) for f in realrun.proc_fallback(mode, program)]
             tag = "C01/%s/%s/%s/%s/c%s/ip%d/N%d" % (proc.SHORT[kind], mode, basis, program or "noprog", n_curves or 0, int(bool(init_perm)), N)
             with Patches() as pt:
-                ps.install(pt)
+                ps.install(pt, name_state=True)
                 got = 0
-                for leaf in job.explore(ps.run, dom):
+                for leaf in job.explore(ps.run, dom, timeout_ms=100):
                     if leaf.kind != "returned":
                         continue
                     got += 1
